@@ -24,13 +24,13 @@ import LitexModel.DriverLib
                            ar.valid ar.addr ar.burst ar.len ar.size ar.id r.ready
   AXI slave signals  (11): aw.ready w.ready b.valid b.resp b.id ar.ready r.valid r.resp r.data r.id r.last
   `axi2axl aw` : inputs = AXI master ++ AXI-Lite slave, outputs = AXI slave ++ AXI-Lite master
-  `axl2axi size burst prot wid rid` : inputs = AXI-Lite master ++ AXI slave,
+  `axl2axi dw burst prot wid rid` (dw = data width in bits; AxSIZE = Axl2Axi.sizeOf dw) : inputs = AXI-Lite master ++ AXI slave,
                                       outputs = AXI-Lite slave ++ AXI master ++ [aw.prot aw.cache ar.prot ar.cache aw.lock aw.qos ar.lock ar.qos]
   `ahb2wb lg shift` : inputs = [haddr hsize htrans hwdata hwrite hsel] ++ Wishbone slave,
                       outputs = [hrdata hreadyout hresp] ++ Wishbone master
   `axi2wb aw nb shift base` (AXI2Wishbone = AXI2AXILite + AXILite2Wishbone on a shared AXI-Lite bus):
         inputs = AXI master ++ Wishbone slave, outputs = AXI slave ++ Wishbone master
-  `wb2axi adrBits shift base size` (Wishbone2AXI = Wishbone2AXILite + AXILite2AXI(INCR, ids 0)):
+  `wb2axi adrBits shift base dw` (dw = data width in bits; Wishbone2AXI = Wishbone2AXILite + AXILite2AXI(INCR, ids 0)):
         inputs = Wishbone master ++ AXI slave, outputs = Wishbone slave ++ AXI master
   `wb2axl adrBits shift base` : inputs = Wishbone master ++ AXI-Lite slave, outputs = Wishbone slave ++ AXI-Lite master
 -/
@@ -147,12 +147,12 @@ def numAxi2Wb (c : A2WCfg) : NumMachine (X2LState × A2WState) where
     | _, _ => none
   key s := toString (repr s)
 
-def numWb2Axi (c : W2ACfg) (size : Nat) : NumMachine W2AState where
+def numWb2Axi (c : W2ACfg) (dw : Nat) : NumMachine W2AState where
   init := Wb2Axl.init
   step s ins :=
     match WbM.ofNums (ins.take 6), AxiS.ofNums (ins.drop 6) with
     | some m, some r =>
-      let l : L2XCfg := { size := size, burst := 1, prot := 0, wid := 0, rid := 0 }
+      let l : L2XCfg := Axl2Axi.cfgOf dw 1 0 0 0
       let a := Axl2Axi.toMaster r
       some (Wb2Axl.next s m a, (Wb2Axl.toMaster s m a).toNums ++ (Axl2Axi.toSlave l (Wb2Axl.toSlave c s m)).toNums)
     | _, _ => none
@@ -172,11 +172,11 @@ def openMachine (args : List String) (hin hout : IO.FS.Stream) : Option (IO Bool
       | "axldown", [ratio, nbTo, abits] => some (serve (numDown { ratio := ratio, nbTo := nbTo, abits := abits }) hin hout)
       | "axlup", [ratio, nbFrom, abits] => some (serve (numUp { ratio := ratio, nbFrom := nbFrom, abits := abits }) hin hout)
       | "axi2axl", [aw] => some (serve (numAxi2Axl aw) hin hout)
-      | "axl2axi", [size, burst, prot, wid, rid] =>
-        some (serve (numAxl2Axi { size := size, burst := burst, prot := prot, wid := wid, rid := rid }) hin hout)
+      | "axl2axi", [dw, burst, prot, wid, rid] =>
+        some (serve (numAxl2Axi (Axl2Axi.cfgOf dw burst prot wid rid)) hin hout)
       | "ahb2wb", [lg, shift] => some (serve (numAhb2Wb { lg := lg, shift := shift }) hin hout)
       | "axi2wb", [aw, nb, shift, base] => some (serve (numAxi2Wb { aw := aw, nb := nb, shift := shift, base := base }) hin hout)
-      | "wb2axi", [ab, shift, base, size] => some (serve (numWb2Axi { adrBits := ab, shift := shift, base := base } size) hin hout)
+      | "wb2axi", [ab, shift, base, dw] => some (serve (numWb2Axi { adrBits := ab, shift := shift, base := base } dw) hin hout)
       | "unit", [] => some (serve ({ init := (), step := fun _ _ => some ((), []), key := fun _ => "()" } : NumMachine Unit) hin hout)
       | "wb2axl", [ab, shift, base] => some (serve (numWb2Axl { adrBits := ab, shift := shift, base := base }) hin hout)
       | _, _ => none
